@@ -303,8 +303,8 @@ class Path:
             return ob
         self.instantiate_defs(f)
         s = self.solver
-        s.push()
         s.set("timeout", PROVE_TIMEOUT_MS)
+        s.push()
         s.add(z3.Not(f))
         r = s.check()
         model = s.model() if r == z3.sat else None
